@@ -209,7 +209,7 @@ pub fn run(eng: &mut Engine) {
         "pcode.rs interpreter + refsem are the P-Code reference semantics; irinterp the IR semantics".into(),
         "only operand kinds the plugin emits: CBRANCH/RETURN operands never in RAM, BOOL ops only on 0/1 values, P-Code size typing obeyed, same-name smaller varnodes only for base register names".into(),
     ];
-    let cases = eng.tier.pick(300_000u64, 10_000_000u64);
+    let cases = eng.tier.pick(1_000_000u64, 10_000_000u64);
     eng.random(
         "lift-block-differential",
         RandomSpec { cases, max_tape: 700 },
